@@ -5,10 +5,11 @@
    bits_wf, tokens, rfc4648_canonical = b64_encode, utf8_chars, ...) are in TypesMore.v. Values are NUL-free texts.
    The binary model follows /repo commit c0ee3aa (canonical string re-encoded when the unused bits are not zero), the
    UTF-8 check /repo commit d2cc93f (noncharacters refused).
-   Not covered here: patterns (C18), LYB encoding of these types, identityref / leafref, the resolution of
+   Not covered here: patterns (C18), LYB encoding of these types, leafref, identityref beyond the value level of the last
+   section (IdRef.v), the resolution of
    instance-identifier paths against the schema (only their canonical string: IidCanon.v, last section) and
    the derived inet / yang types (searched by the SourceIndep oracle only). *)
-From LY Require Import Base TypesMisc TypesMiscP IntLex IntLexP Utf8 TypesMore TypesMoreP PathQuote PathQuoteP IidCanon IidCanonP.
+From LY Require Import Base TypesMisc TypesMiscP IntLex IntLexP Utf8 TypesMore TypesMoreP PathQuote PathQuoteP IidCanon IidCanonP IdRef IdRefP.
 Local Open Scope N_scope.
 
 (* ====================== enumeration (RFC 7950 9.6) ====================== *)
@@ -406,3 +407,73 @@ Example C03_iid_example :
     [47;109;58;108;91;97;61;34;105;116;39;115;34;93;91;98;61;39;115;97;121;32;34;104;105;34;39;93;47;118] /\
   iid_print [([109], [108], [PPos 2; PLeaf [120]]); ([110], [119], [])] = [47;109;58;108;91;50;93;91;46;61;39;120;39;93;47;110;58;119].
 Proof. split; vm_compute; reflexivity. Qed.
+
+(* ====================== identityref (RFC 7950 9.10), value level ====================== *)
+(* Model IdRef.v: identityref_str2ident (prefix = bytes before the first colon; none or EMPTY = module of the leaf),
+   identityref_check_base (derived from ALL bases, /repo commit f805b4f), lyplg_type_identity_isderived, canonical string
+   module:name, compare = same identity, sort = strcmp of the names. JSON value format only; disabled identities, not
+   implemented modules and the status check are not modelled. *)
+
+(* the search through the derived arrays finds exactly the identities reachable by 1..fuel base statements *)
+Theorem C03_idref_isderived_iff :
+  forall fuel g base der,
+    isderived fuel g base der = true <-> exists n, (1 <= n <= fuel)%nat /\ derives_n g n base der.
+Proof. exact isderived_iff. Qed.
+Print Assumptions C03_idref_isderived_iff.
+
+(* an accepted value names an identity of the addressed module that is derived from EVERY base of the type *)
+Theorem C03_idref_store_all_bases :
+  forall fuel sch ctxmod bases s i,
+    idref_store fuel sch ctxmod bases s = Ok i ->
+    (exists ids, find_module (ids_modules sch) (fst i) = Some ids /\ existsb (beq_bytes (snd i)) ids = true) /\
+    forall b, In b bases -> isderived fuel (ids_derived sch) b i = true.
+Proof. exact idref_store_sound. Qed.
+Print Assumptions C03_idref_store_all_bases.
+
+(* canonicalisation is idempotent: module:name of an accepted value is accepted and gives the same identity (the module
+   name holds no colon, both names are not empty) *)
+Theorem C03_idref_canon_idempotent :
+  forall fuel sch ctxmod bases s i,
+    no_colon (fst i) -> snd i <> [] ->
+    idref_store fuel sch ctxmod bases s = Ok i -> idref_store fuel sch ctxmod bases (idref_canon i) = Ok i.
+Proof. exact idref_canon_idempotent. Qed.
+Print Assumptions C03_idref_canon_idempotent.
+
+(* two identities are equal exactly when their canonical strings are equal *)
+Theorem C03_idref_eq_iff_canon :
+  forall a b, no_colon (fst a) -> no_colon (fst b) -> (idref_compare a b = true <-> idref_canon a = idref_canon b).
+Proof. exact idref_eq_iff_canon. Qed.
+Print Assumptions C03_idref_eq_iff_canon.
+
+(* the sort callback (names only) is a strict total order whose equality is the compare callback among identities of ONE
+   module; across modules it is not (model level: C03_idref_sort_refuted; not exercised against the library) *)
+Theorem C03_idref_sort_total_order :
+  (forall a, idref_sort a a = Eq) /\
+  (forall a b, fst a = fst b -> (idref_sort a b = Eq <-> idref_compare a b = true)) /\
+  (forall a b, idref_sort a b = CompOpp (idref_sort b a)) /\
+  (forall a b c, idref_sort a b = Lt -> idref_sort b c = Lt -> idref_sort a c = Lt).
+Proof. exact idref_sort_total_order. Qed.
+Print Assumptions C03_idref_sort_total_order.
+
+Theorem C03_idref_sort_refuted :
+  exists a b, idref_sort a b = Eq /\ idref_compare a b = false /\ idref_canon a <> idref_canon b.
+Proof. exact idref_sort_refuted. Qed.
+Print Assumptions C03_idref_sort_refuted.
+
+(* regression of the fixed defect idref-any-base (f805b4f; seeded change C02-7) on the identities of the test module:
+   ia {base ba;} is rejected for identityref {base ba; base bb;}, the any-base variant accepts it *)
+Theorem C03_idref_any_base_refuted :
+  idref_store 8 types2_schema T2M types2_bases n_ia = Err E_VALID /\
+  idref_store_any_base 8 types2_schema T2M types2_bases n_ia = Ok (idn n_ia) /\
+  idref_store 8 types2_schema T2M types2_bases n_iab = Ok (idn n_iab) /\
+  idref_store 8 types2_schema T2M types2_bases (T2M ++ 58 :: n_iab2) = Ok (idn n_iab2) /\
+  idref_canon (idn n_iab2) = T2M ++ 58 :: n_iab2.
+Proof. exact idref_any_base_regression. Qed.
+Print Assumptions C03_idref_any_base_refuted.
+
+(* known finding idref-empty-prefix, as coded: the value :iab is accepted as types2:iab although its prefix is empty *)
+Theorem C03_idref_empty_prefix_refuted :
+  idref_store 8 types2_schema T2M types2_bases (58 :: n_iab) = Ok (idn n_iab) /\
+  ~ no_colon (fst (idref_split (58 :: n_iab))) /\ idref_canon (idn n_iab) <> 58 :: n_iab.
+Proof. exact idref_empty_prefix_refuted. Qed.
+Print Assumptions C03_idref_empty_prefix_refuted.
